@@ -94,12 +94,18 @@ Section Visit.
     then (tr1, userret)
     else (tr1, RET_ERROR).
 
-  (* json_c_visit: the calls in call order, and the value returned *)
-  Definition json_c_visit (jso : jv) : list event * Z :=
+  (* json_c_visit(jso, future_flags, userfunc, userarg): the calls in call order, and the value
+     returned.  [future_flags] is accepted and not used: the flags handed to the user function
+     are the constants 0 and JSON_C_VISIT_SECOND.  [userarg] is passed through unchanged to every
+     call; in the model it is part of the closure [userfunc]. *)
+  Definition json_c_visit_ff (jso : jv) (future_flags : Z) : list event * Z :=
     let '(tr, ret) := visit jso [] PNone KNone 0 [] in
     (rev_append tr [],      (* = rev tr, in linear time (the extracted model runs on large trees) *)
      if (ret =? RET_CONTINUE) || (ret =? RET_SKIP) || (ret =? RET_POP) || (ret =? RET_STOP)
      then 0 else RET_ERROR).
+
+  (* the documented way to call it: future_flags = 0 *)
+  Definition json_c_visit (jso : jv) : list event * Z := json_c_visit_ff jso 0.
 End Visit.
 
 (* ---- several traversals ---------------------------------------------------------------
@@ -107,7 +113,7 @@ End Visit.
    nothing outside its own activation.  So a callback may itself start another traversal
    (of the same or another tree, with another user function and argument) before it returns,
    and traversals may follow one another: each one behaves as if it were alone.  A program
-   [Prog v codes nested] is the traversal of [v] whose callback answers its n-th call with
+   [Prog v ff codes nested] is the traversal of [v] (called with future_flags = [ff]) whose callback answers its n-th call with
    the n-th code (CONTINUE when the list is exhausted) and, during its k-th call and before
    returning from it, runs the programs [q] with [(k, q)] in [nested].  [run_prog] lists the
    outcome of every traversal of the program in the order of the program text; [None] = the
@@ -115,19 +121,19 @@ End Visit.
 Definition sched_fun (codes : list Z) : list event -> Z :=
   fun hist => nth (length hist - 1) codes 0.
 
-Inductive prog := Prog (v : jv) (codes : list Z) (nested : list (Z * prog)).
+Inductive prog := Prog (v : jv) (ff : Z) (codes : list Z) (nested : list (Z * prog)).
 
 Fixpoint not_run (p : prog) : list (option (list event * Z)) :=
   match p with
-  | Prog _ _ nested =>
+  | Prog _ _ _ nested =>
       None :: (fix go (l : list (Z * prog)) :=
                  match l with [] => [] | kq :: t => not_run (snd kq) ++ go t end) nested
   end.
 
 Fixpoint run_prog (p : prog) : list (option (list event * Z)) :=
   match p with
-  | Prog v codes nested =>
-      let out := json_c_visit (sched_fun codes) v in
+  | Prog v ff codes nested =>
+      let out := json_c_visit_ff (sched_fun codes) v ff in
       Some out :: (fix go (l : list (Z * prog)) :=
                      match l with
                      | [] => []
